@@ -6,14 +6,20 @@ Import ListNotations.
 Definition aw_solve (A B : list (list Q)) : list (list Q) :=
   match A, B with [[a]], [[b]] => [[Qred (b / a)]] | _, _ => [] end.
 
-(* the defect: the documented stand-alone use of admm -- n_const = 1, a constraint, order left at its default None --
-   raises (validate_constraints indexes its lists with None); with order = 0 the same call returns, and from x = 0 the
-   non-negative ADMM iterates 1, 3/2, 7/4 approach the solution 2 of 2 x = 4 *)
+(* regression of the former defect (before /repo a5b9e5b): the documented stand-alone use of admm -- n_const = 1, a constraint,
+   order left at its default None -- raised (validate_constraints indexed its lists with None); the repaired code reads None as
+   mode 0: the same call returns, and from x = 0 the non-negative ADMM iterates 1, 3/2, 7/4 approach the solution 2 of 2 x = 4.
+   Still raising: an order out of range, and n_iter_max = 0 (x_split unbound: known finding admm_zero_iterations). *)
 Lemma admm_order_none_witness :
-  admm Qops aw_solve (Some 1%nat) None (KNonneg) [[4%Q]] [[2%Q]] [[0%Q]] [[0%Q]] 1 1 100 (1#10000)%Q = Err /\
-  admm Qops aw_solve (Some 1%nat) None (KNone) [[4%Q]] [[2%Q]] [[0%Q]] [[0%Q]] 1 1 100 (1#10000)%Q = Err /\
+  admm_before_a5b9e5b Qops aw_solve (Some 1%nat) None (KNonneg) [[4%Q]] [[2%Q]] [[0%Q]] [[0%Q]] 1 1 3 (1#10000)%Q = Err /\
+  admm Qops aw_solve (Some 1%nat) None (KNonneg) [[4%Q]] [[2%Q]] [[0%Q]] [[0%Q]] 1 1 3 (1#10000)%Q = Ok ([[7#4]], [[7#4]], [[0]])%Q /\
   admm Qops aw_solve (Some 1%nat) (Some 0%nat) (KNonneg) [[4%Q]] [[2%Q]] [[0%Q]] [[0%Q]] 1 1 3 (1#10000)%Q
     = Ok ([[7#4]], [[7#4]], [[0]])%Q /\
-  admm Qops aw_solve None None (KNone) [[4%Q]] [[2%Q]] [[0%Q]] [[0%Q]] 1 1 100 (1#10000)%Q = Ok ([[2]], [[1]], [[0]])%Q /\
-  admm Qops aw_solve None None (KNone) [[4%Q]] [[2%Q]] [[0%Q]] [[0%Q]] 1 1 0 (1#10000)%Q = Err.
+  admm Qops aw_solve (Some 1%nat) (Some 1%nat) (KNonneg) [[4%Q]] [[2%Q]] [[0%Q]] [[0%Q]] 1 1 3 (1#10000)%Q = Err /\
+  admm Qops aw_solve None None (KNone) [[4%Q]] [[2%Q]] [[0%Q]] [[0%Q]] 1 1 100 (1#10000)%Q = Ok ([[2]], [[1]], [[0]])%Q.
 Proof. vm_compute. repeat split; reflexivity. Qed.
+(* the open defect: n_iter_max = 0 (a documented value: 'Maximum number of iteration') raises, whatever the other arguments *)
+Lemma admm_zero_iterations_witness :
+  admm Qops aw_solve None None (KNone) [[4%Q]] [[2%Q]] [[0%Q]] [[0%Q]] 1 1 0 (1#10000)%Q = Err /\
+  admm Qops aw_solve (Some 1%nat) (Some 0%nat) (KNonneg) [[4%Q]] [[2%Q]] [[0%Q]] [[0%Q]] 1 1 0 (1#10000)%Q = Err.
+Proof. vm_compute. split; reflexivity. Qed.
